@@ -42,6 +42,7 @@ type Contract struct {
 	Safe     bool
 	SafeKinds map[string]bool
 	Modular  bool // never inline at call sites even if it has no ensures
+	Transparent bool // callers that can inline the body do so instead of using the postconditions
 	NoBody   bool
 	SitesOnly bool
 	EosExit  bool
@@ -80,7 +81,7 @@ type SpecFunc struct {
 	Opaque bool
 }
 
-var kwRe = regexp.MustCompile(`^(func|spec|readers|writers|callers|stateless|between|paired|deferredonly|safederef|preserved|internal|inline|eosexit|requires|ensures|decreases|loop|safe|modular|terminates|witness|witnessgo|unordered|usesonly|mapwrite|globalstore|callsite|nobody|sitesonly|end)\b`)
+var kwRe = regexp.MustCompile(`^(func|spec|readers|writers|callers|stateless|between|paired|deferredonly|safederef|preserved|internal|inline|eosexit|requires|ensures|decreases|loop|safe|modular|transparent|terminates|witness|witnessgo|unordered|usesonly|mapwrite|globalstore|callsite|nobody|sitesonly|end)\b`)
 
 func (e *Engine) loadContracts() error {
 	e.contracts = map[string]*Contract{}
@@ -230,6 +231,10 @@ func (e *Engine) parseContractFile(file, pkgPath, data string) error {
 			if prev := e.contracts[rest]; prev != nil {
 				return fmt.Errorf("%s:%d: second contract block for %s (first at %s:%d): merge them", file, l.line, rest, prev.File, prev.Line)
 			}
+			if strings.ContainsAny(rest, " \t") {
+				// (an unknown directive on the next line is joined to this one as a continuation)
+				return fmt.Errorf("%s:%d: malformed function name %q (unknown directive on the following line?)", file, l.line, rest)
+			}
 			cur = &Contract{Func: rest, Pkg: pkgPath, LoopInv: map[int][]*Clause{}, LoopDecr: map[int]*Clause{}, Witness: map[string]string{}, Line: l.line, File: file}
 			e.contracts[rest] = cur
 			e.contractOrder = append(e.contractOrder, rest)
@@ -342,6 +347,8 @@ func (e *Engine) parseContractFile(file, pkgPath, data string) error {
 			}
 		case "modular":
 			cur.Modular = true
+		case "transparent":
+			cur.Transparent = true
 		case "inline":
 			// inline <max blocks> <max depth>: how far callees without contract are inlined
 			if len(fields) >= 3 {
